@@ -35,7 +35,7 @@ CONSTANTS N,           \* timer ids 1..N
           TaskTimes,   \* step times of a generator task ({}: no tasks)
           MaxOps,      \* environment operations other than Tick
           MaxTicks,    \* Ticks
-          Variant      \* "code" | "gt" | "addinterval" | "nopending" | "flip" | "slack"
+          Variant      \* "code" | "gt" | "addinterval" | "nopending" | "flip" | "slack" | "stopsweep"
 
 VARIABLES now,     \* virtual clock
           tms,     \* [1..N -> [st, iv, per, exp]]  st: "absent" | "live" | "leaving" | "gone"
@@ -174,12 +174,15 @@ Pass(M, i) ==
                r2  == IF r.per = 1
                       THEN [r EXCEPT !.exp = IF Variant = "addinterval" THEN r.exp + r.iv ELSE M.now + r.iv]
                       ELSE [r EXCEPT !.st = "leaving"]
-           IN Pass([M EXCEPT !.lines = Append(@, Line("fire", i, 0, 0, M.now)),
-                             !.q = q2, !.tms[i] = r2, !.bud = Lower(@, 0),
-                             !.fired = @ \cup {i},
-                             !.fires[i] = IF Len(@) < 2 THEN Append(@, M.now) ELSE <<@[2], M.now>>,
-                             !.early = @ \/ M.now < r.exp],
-                    i + 1)
+               M2  == [M EXCEPT !.lines = Append(@, Line("fire", i, 0, 0, M.now)),
+                                !.q = q2, !.tms[i] = r2, !.bud = Lower(@, 0),
+                                !.fired = @ \cup {i},
+                                !.fires[i] = IF Len(@) < 2 THEN Append(@, M.now) ELSE <<@[2], M.now>>,
+                                !.early = @ \/ M.now < r.exp]
+           IN \* "stopsweep": the timer calls event.stop() instead of reduce_time_left(0):
+              \* no further generate_events handler (timer, observer, fallback) runs in this pass
+              IF Variant = "stopsweep" THEN [M2 EXCEPT !.cut = TRUE, !.bud = 0]
+              ELSE Pass(M2, i + 1)
     ELSE Pass([M EXCEPT !.bud = Lower(@, 2 * (r.exp - M.now) + (IF Variant = "slack" THEN 2 ELSE 0))], i + 1)
 
 CeilU(b) == IF b < 0 THEN -1 ELSE (b + 1) \div 2
@@ -188,13 +191,14 @@ FloorU(b) == b \div 2
 TickResult ==
   LET M0 == [now |-> now, tms |-> tms, q |-> <<>>, task |-> task,
              lines |-> <<Line("tick", 0, 0, 0, now)>>, bud |-> -1, fired |-> {},
-             fires |-> fires, early |-> FALSE]
+             fires |-> fires, early |-> FALSE, cut |-> FALSE]
       M1 == Disp(TaskPhase(M0), queue)
       \* _dispatcher: events fired meanwhile, or registered tasks, bound the budget up front
       b0 == IF M1.q # <<>> THEN 0 ELSE IF M1.task.n >= 0 THEN TO ELSE -1
       M2 == Pass([M1 EXCEPT !.bud = b0,
                             !.lines = Append(@, Line("gbeg", 0, 0, 0, M1.now))], 1)
-      M3 == [M2 EXCEPT !.lines = Append(@, Line("gend", 0, CeilU(M2.bud), 0, M2.now))]
+      M3 == [M2 EXCEPT !.lines = Append(@, IF M2.cut THEN Line("gcut", 0, 0, 0, M2.now)
+                                              ELSE Line("gend", 0, CeilU(M2.bud), 0, M2.now))]
       \* direct statement of the property on the model's own state
       livedue == {t \in Ids : tms[t].st = "live" /\ M1.tms[t].st = "live" /\ M1.tms[t].exp <= M1.now}
       pending == {t \in Ids : M3.tms[t].st = "live"}
